@@ -86,6 +86,9 @@ type Spec struct {
 	// RemoveOwnTmp: these jobs remove their own temporary directory before they end (a tidy
 	// stage, a `trap 'rm -rf "$TMPDIR"' EXIT`)
 	RemoveOwnTmp []string `json:"remove_own_tmp"`
+	// TmpLink: jobs leave a symbolic link to a directory elsewhere (holding a file) in their
+	// temporary directory
+	TmpLink bool `json:"tmp_link"`
 	// Bare: stage code writes the files its outputs name and nothing else (no unreferenced
 	// files, nothing in the temporary directory): a fork may then have nothing to reclaim
 	Bare bool `json:"bare"`
@@ -881,6 +884,12 @@ func (d *Driver) begin(j *job) {
 			tmp := path.Join(j.vj.MetadataPath, "tmp")
 			os.MkdirAll(tmp, 0755)
 			writeFile(path.Join(tmp, "scratch.dat"), []byte("temporary file of "+j.key+"\n"))
+			if d.spec.TmpLink {
+				ext := path.Join(path.Dir(canon(d.psdir)), "scratch-elsewhere")
+				os.MkdirAll(ext, 0755)
+				writeFile(path.Join(ext, "big.bin"), []byte(strings.Repeat("x", 5000)))
+				os.Symlink(ext, path.Join(tmp, "extlink"))
+			}
 			d.fmu.Lock()
 			d.tmps[j.key] = path.Join(tmp, "scratch.dat")
 			d.fmu.Unlock()
